@@ -4,6 +4,8 @@ import SurfProofs.C08
 Helper lemmas for C10 (view layout): arithmetic of `clamp` / saturating sums, inversion of the
 layout function, shape of the layout tree.
 -/
+set_option linter.unusedSimpArgs false
+set_option linter.unusedSectionVars false
 namespace SurfProofs.ViewLayoutL
 open SurfModel SurfModel.ViewLayout
 
@@ -687,5 +689,917 @@ theorem renderKids_sub (ctx : Ctx) (dir : Axis) : ∀ (cs : List Child) (s : Sha
           · exact render_sub ctx v s t _ (by assumption) p hp
           · exact renderKids_sub ctx dir cs s ts _ (by assumption) p hp
 end
+
+/-! ## reported size within the constraint -/
+
+def ReportsB : V → Bool
+  | .text _ _ => true | .str _ => true | .glyph _ _ _ => true | .fixed _ _ _ => true | .image _ _ => true
+  | .fill _ => true | .flex _ _ _ => true | .container _ _ _ _ _ _ => true
+  | .scrollbar _ => false | .optNone => false | .frame _ => false | .tag _ => false | .dyn _ _ _ => false
+
+theorem within_leaf {ct : Ct} {s r : Size} {t : LT} (e : ct.clamp s = .ok r) (ht : t = LT.leaf r) :
+    ct.min.h ≤ t.size.h ∧ t.size.h ≤ ct.max.h ∧ ct.min.w ≤ t.size.w ∧ t.size.w ≤ ct.max.w := by
+  subst ht; exact (ctClamp_inv e).2
+
+theorem dim_inv {sz lo hi c : Nat} (hlh : lo ≤ hi)
+    (h : (if sz = 0 then Except.ok hi else clampU sz lo hi) = (Except.ok c : Except Panic Nat)) : lo ≤ c ∧ c ≤ hi := by
+  split at h
+  · injection h with h; omega
+  · have := clampU_inv h; have := clampN_bounds (v := sz) hlh; omega
+
+theorem shrink_inv {b : Prop} [Decidable b] {x lo hi c c' : Nat} (hlh : lo ≤ hi) (hc : lo ≤ c ∧ c ≤ hi)
+    (h : (if b then clampU x lo hi else Except.ok c) = (Except.ok c' : Except Panic Nat)) : lo ≤ c' ∧ c' ≤ hi := by
+  split at h
+  · have := clampU_inv h; have := clampN_bounds (v := x) hlh; omega
+  · injection h with h; omega
+
+theorem layout_within (ctx : Ctx) (v : V) (ct : Ct) (t : LT) (hr : ReportsB v = true) (hv : Valid ct)
+    (h : v.layout ctx ct = .ok t) :
+    ct.min.h ≤ t.size.h ∧ t.size.h ≤ ct.max.h ∧ ct.min.w ≤ t.size.w ∧ t.size.w ≤ ct.max.w := by
+  cases v with
+  | text cells wraps =>
+    rw [V.layout] at h
+    split at h; · cases h
+    split at h; · cases h
+    injection h with h; exact within_leaf (by assumption) h.symm
+  | str chars =>
+    rw [V.layout] at h
+    split at h; · cases h
+    split at h; · cases h
+    injection h with h; exact within_leaf (by assumption) h.symm
+  | glyph gh gw fb =>
+    rw [V.layout] at h
+    split at h
+    · split at h; · cases h
+      injection h with h; exact within_leaf (by assumption) h.symm
+    · split at h; · cases h
+      split at h; · cases h
+      injection h with h; exact within_leaf (by assumption) h.symm
+  | fixed id fh fw =>
+    rw [V.layout] at h
+    split at h; · cases h
+    injection h with h; exact within_leaf (by assumption) h.symm
+  | image ph pw =>
+    rw [V.layout] at h
+    split at h; · cases h
+    injection h with h; exact within_leaf (by assumption) h.symm
+  | fill p =>
+    rw [V.layout] at h
+    injection h with h; subst h
+    exact ⟨hv.1, Nat.le_refl _, hv.2, Nat.le_refl _⟩
+  | flex dir j cs =>
+    rw [V.layout] at h
+    simp only at h
+    split at h; · cases h
+    split at h; · cases h
+    split at h; · cases h
+    split at h; · cases h
+    split at h; · cases h
+    injection h with h; subst h
+    exact (ctClamp_inv (by assumption)).2
+  | container size av ah m face c =>
+    rw [V.layout] at h
+    simp only at h
+    split at h; · cases h
+    split at h; · cases h
+    split at h; · cases h
+    split at h; · cases h
+    split at h; · cases h
+    rename_i _ ch eh _ cw ew _ tc etc _ h2 eh2 _ w2 ew2
+    injection h with h; subst h
+    have a := dim_inv hv.1 eh
+    have b := dim_inv hv.2 ew
+    have a2 := shrink_inv hv.1 a eh2
+    have b2 := shrink_inv hv.2 b ew2
+    simp only [node_size]
+    omega
+  | scrollbar _ => simp [ReportsB] at hr
+  | optNone => simp [ReportsB] at hr
+  | frame _ => simp [ReportsB] at hr
+  | tag _ => simp [ReportsB] at hr
+  | dyn _ _ _ => simp [ReportsB] at hr
+
+/-! ## `apply_to` is clipping; paints are recorded rectangles; hit testing -/
+
+
+
+theorem range_bounds (a b n : Nat) :
+    Slice.viewBounds (.range a b) n = if Nat.min a n < Nat.min b n then some (Nat.min a n, Nat.min b n) else none := by
+  rw [SurfProofs.C08.C08_slice]
+  simp only [Slice.pySlice, Slice.pySel, Slice.pyIdx]
+  have ha : ¬ ((a : Int) < 0) := by omega
+  have hb : ¬ ((b : Int) < 0) := by omega
+  simp only [ha, hb, if_false]
+  have e1 : min (a : Int) (n : Int) = ((Nat.min a n : Nat) : Int) := by
+    show _ = ((if a ≤ n then a else n : Nat) : Int)
+    split <;> omega
+  have e2 : min (b : Int) (n : Int) = ((Nat.min b n : Nat) : Int) := by
+    show _ = ((if b ≤ n then b else n : Nat) : Int)
+    split <;> omega
+  rw [e1, e2]
+  by_cases h : Nat.min a n < Nat.min b n
+  · have : ((Nat.min a n : Nat) : Int) < ((Nat.min b n : Nat) : Int) := by omega
+    simp [h, this]
+  · have : ¬ ((Nat.min a n : Nat) : Int) < ((Nat.min b n : Nat) : Int) := by omega
+    simp [h, this]
+
+theorem full_bounds (n : Nat) : Slice.viewBounds .full n = if 0 < n then some (0, n) else none := by
+  rw [SurfProofs.C08.C08_slice]
+  simp only [Slice.pySlice, Slice.pySel]
+  by_cases h : 0 < n
+  · have : (0 : Int) < (n : Int) := by omega
+    simp [h, this]
+  · have : ¬ (0 : Int) < (n : Int) := by omega
+    simp [h, this]
+
+/-- a non-empty rectangle of cells `[r0, r1) × [c0, c1)` in the coordinates of a root surface -/
+structure Rect where
+  r0 : Nat
+  c0 : Nat
+  r1 : Nat
+  c1 : Nat
+  deriving Repr, DecidableEq
+
+def Rect.Inside (w : Rect) (root : Shape) : Prop :=
+  w.r0 < w.r1 ∧ w.c0 < w.c1 ∧ w.r1 ≤ root.height ∧ w.c1 ≤ root.width
+
+/-- the rectangle `[pos, pos + size)`, taken relative to the origin of `W`, cut to `W`; `none` = nothing left -/
+def clip (W : Option Rect) (pos : Pos) (size : Size) : Option Rect :=
+  match W with
+  | none => none
+  | some w =>
+    let r0 := w.r0 + pos.row
+    let c0 := w.c0 + pos.col
+    let r1 := min (r0 + size.h) w.r1
+    let c1 := min (c0 + size.w) w.c1
+    if r0 < r1 ∧ c0 < c1 then some ⟨r0, c0, r1, c1⟩ else none
+
+/-- the sub-surface of `root` that covers exactly the rectangle (the all-zero shape for `none`) -/
+def winShape (root : Shape) : Option Rect → Shape
+  | none => Shape.zero
+  | some w => { root with start := root.offset w.r0 w.c0, end_ := root.offset (w.r1 - 1) w.c1,
+                          width := w.c1 - w.c0, height := w.r1 - w.r0 }
+
+theorem natMin_eq (a b : Nat) : Nat.min a b = min a b := rfl
+
+theorem min_satAdd (a h H : Nat) (hH : H < U) : min (satAdd a h) H = min (a + h) H := by
+  unfold satAdd; split <;> omega
+
+theorem clip_inside {root : Shape} {W : Option Rect} (hW : ∀ w, W = some w → w.Inside root) (pos : Pos) (size : Size) :
+    ∀ w, clip W pos size = some w → w.Inside root := by
+  intro w' h
+  cases W with
+  | none => simp [clip] at h
+  | some w =>
+    have hi := hW w rfl
+    simp only [clip] at h
+    split at h
+    · injection h with h; subst h
+      simp only [Rect.Inside] at hi ⊢
+      omega
+    · cases h
+
+theorem view_zero (rows cols : Slice.Sel) : Shape.zero.view rows cols = Shape.zero := by
+  unfold Shape.view
+  have : Slice.viewBounds cols Shape.zero.width = none := by
+    show Slice.viewBounds cols 0 = none
+    rw [SurfProofs.C08.C08_slice]
+    cases h : Slice.pySlice cols 0 with
+    | none => rfl
+    | some p =>
+      have := SurfProofs.C08.C08_range cols 0 p.1 p.2 (by rw [SurfProofs.C08.C08_slice]; exact h)
+      omega
+  rw [this]
+
+/-- **`Layout::apply_to` is clipping.**  On the sub-surface of `root` covering the rectangle `W`, `apply_to`
+yields the sub-surface covering `[pos, pos + size)` (relative to the origin of `W`) cut to `W`. -/
+theorem applyTo_clip (root : Shape) (hh : root.height < U) (hw : root.width < U) (W : Option Rect)
+    (hW : ∀ w, W = some w → w.Inside root) (t : LT) :
+    applyTo t (winShape root W) = winShape root (clip W t.pos t.size) := by
+  cases W with
+  | none => simp only [winShape, clip, applyTo, view_zero]
+  | some w =>
+    obtain ⟨h1, h2, h3, h4⟩ := hW w rfl
+    simp only [applyTo, winShape, Shape.view, range_bounds, natMin_eq]
+    rw [min_satAdd _ _ _ (by omega), min_satAdd _ _ _ (by omega)]
+    simp only [clip]
+    by_cases hc : min t.pos.col (w.c1 - w.c0) < min (t.pos.col + t.size.w) (w.c1 - w.c0)
+    · by_cases hr : min t.pos.row (w.r1 - w.r0) < min (t.pos.row + t.size.h) (w.r1 - w.r0)
+      · have hcl : w.r0 + t.pos.row < min (w.r0 + t.pos.row + t.size.h) w.r1 ∧ w.c0 + t.pos.col < min (w.c0 + t.pos.col + t.size.w) w.c1 := by omega
+        simp only [hc, hr, if_true, hcl, and_self, winShape]
+        have e1 : min t.pos.row (w.r1 - w.r0) = t.pos.row := by omega
+        have e2 : min t.pos.col (w.c1 - w.c0) = t.pos.col := by omega
+        have e3 : min (w.r0 + t.pos.row + t.size.h) w.r1 = w.r0 + min (t.pos.row + t.size.h) (w.r1 - w.r0) := by omega
+        have e4 : min (w.c0 + t.pos.col + t.size.w) w.c1 = w.c0 + min (t.pos.col + t.size.w) (w.c1 - w.c0) := by omega
+        have e5 : w.r0 + min (t.pos.row + t.size.h) (w.r1 - w.r0) - 1 = w.r0 + (min (t.pos.row + t.size.h) (w.r1 - w.r0) - 1) := by omega
+        rw [e1, e2, e3, e4, e5]
+        simp only [Shape.offset, Nat.add_mul]
+        congr 1 <;> omega
+      · have hcl : ¬ (w.r0 + t.pos.row < min (w.r0 + t.pos.row + t.size.h) w.r1 ∧ w.c0 + t.pos.col < min (w.c0 + t.pos.col + t.size.w) w.c1) := by omega
+        simp only [hc, hr, if_true, if_false, hcl, winShape]
+    · have hcl : ¬ (w.r0 + t.pos.row < min (w.r0 + t.pos.row + t.size.h) w.r1 ∧ w.c0 + t.pos.col < min (w.c0 + t.pos.col + t.size.w) w.c1) := by omega
+      simp only [hc, if_false, hcl, winShape]
+
+
+/-- follow child indices from `t`, composing and clipping the rectangles: the node reached and the part
+of it that is visible inside `W` -/
+def walk : LT → Option Rect → List Nat → Option (LT × Option Rect)
+  | t, W, [] => some (t, clip W t.pos t.size)
+  | t, W, i :: π => match t.kids[i]? with
+    | none => none
+    | some k => walk k (clip W t.pos t.size) π
+
+/-- the paint goes through the visible rectangle of some node of the layout tree: exactly that rectangle
+for views and frames, a part of it for a face fill -/
+def Recorded (root : Shape) (t : LT) (W : Option Rect) (p : Paint) : Prop :=
+  ∃ π n W', walk t W π = some (n, W') ∧
+    (if p.kind = .erase then Sub p.shape (winShape root W') else p.shape = winShape root W')
+
+theorem Recorded.here {root : Shape} {t : LT} {W : Option Rect} {p : Paint} (hk : p.kind ≠ .erase)
+    (h : p.shape = winShape root (clip W t.pos t.size)) : Recorded root t W p :=
+  ⟨[], t, _, rfl, by simp only [hk, if_false]; exact h⟩
+
+theorem Recorded.hereSub {root : Shape} {t : LT} {W : Option Rect} {p : Paint} (hk : p.kind = .erase)
+    (h : Sub p.shape (winShape root (clip W t.pos t.size))) : Recorded root t W p :=
+  ⟨[], t, _, rfl, by simp only [hk, if_true]; exact h⟩
+
+theorem Recorded.below {root : Shape} {t k : LT} {W : Option Rect} {p : Paint} (i : Nat) (hk : t.kids[i]? = some k)
+    (h : Recorded root k (clip W t.pos t.size) p) : Recorded root t W p := by
+  obtain ⟨π, n, W', hw, hc⟩ := h
+  exact ⟨i :: π, n, W', by simp only [walk, hk, hw], hc⟩
+
+section
+variable (root : Shape) (hh : root.height < U) (hw : root.width < U)
+include hh hw
+
+mutual
+theorem render_recorded (ctx : Ctx) : ∀ (v : V) (W : Option Rect), (∀ w, W = some w → w.Inside root) →
+    ∀ (t : LT) (ps : List Paint), v.render ctx (winShape root W) t = .ok ps → ∀ p ∈ ps, Recorded root t W p
+  | .text _ _, W, hW, t, ps, h => by
+    simp only [V.render] at h; injection h with h; subst h
+    intro p hp; simp at hp; subst hp
+    exact Recorded.here (by simp) (applyTo_clip root hh hw W hW t)
+  | .str _, W, hW, t, ps, h => by
+    simp only [V.render] at h; injection h with h; subst h
+    intro p hp; simp at hp; subst hp
+    exact Recorded.here (by simp) (applyTo_clip root hh hw W hW t)
+  | .glyph _ _ _, W, hW, t, ps, h => by
+    simp only [V.render] at h; injection h with h; subst h
+    intro p hp; simp at hp; subst hp
+    exact Recorded.here (by simp) (applyTo_clip root hh hw W hW t)
+  | .fixed _ _ _, W, hW, t, ps, h => by
+    simp only [V.render] at h; injection h with h; subst h
+    intro p hp; simp at hp; subst hp
+    exact Recorded.here (by simp) (applyTo_clip root hh hw W hW t)
+  | .image _ _, W, hW, t, ps, h => by
+    simp only [V.render] at h; injection h with h; subst h
+    intro p hp; simp at hp; subst hp
+    exact Recorded.here (by simp) (applyTo_clip root hh hw W hW t)
+  | .fill b, W, hW, t, ps, h => by
+    simp only [V.render] at h
+    split at h <;> (injection h with h; subst h; intro p hp; simp at hp)
+    subst hp
+    exact Recorded.here (by simp) (applyTo_clip root hh hw W hW t)
+  | .scrollbar dir, W, hW, t, ps, h => by
+    simp only [V.render] at h
+    split at h <;> (injection h with h; subst h; intro p hp; simp at hp)
+    subst hp
+    exact Recorded.here (by simp) (applyTo_clip root hh hw W hW t)
+  | .optNone, W, hW, t, ps, h => by
+    simp only [V.render] at h; injection h with h; subst h
+    intro p hp; simp at hp
+  | .flex dir _ cs, W, hW, t, ps, h => by
+    simp only [V.render] at h
+    rw [applyTo_clip root hh hw W hW t] at h
+    intro p hp
+    rcases renderKids_recorded ctx dir cs (clip W t.pos t.size) (clip_inside hW _ _) t.kids ps h p hp with
+      ⟨j, k, hj, hr⟩ | ⟨hk, hs⟩
+    · exact Recorded.below j hj hr
+    · exact Recorded.hereSub hk hs
+  | .container _ _ _ _ face c, W, hW, t, ps, h => by
+    simp only [V.render] at h
+    rw [applyTo_clip root hh hw W hW t] at h
+    split at h
+    · cases h
+    · rename_i k ks ek
+      split at h
+      · cases h
+      · injection h with h; subst h
+        intro p hp
+        have hk0 : t.kids[0]? = some k := by rw [ek]; rfl
+        split at hp
+        · simp only [List.mem_cons] at hp
+          rcases hp with rfl | hp
+          · exact Recorded.hereSub rfl (Sub.refl _)
+          · exact Recorded.below 0 hk0 (render_recorded ctx c _ (clip_inside hW _ _) k _ (by assumption) p hp)
+        · exact Recorded.below 0 hk0 (render_recorded ctx c _ (clip_inside hW _ _) k _ (by assumption) p hp)
+  | .frame c, W, hW, t, ps, h => by
+    simp only [V.render] at h
+    split at h
+    · exact render_recorded ctx c W hW t ps h
+    · rw [applyTo_clip root hh hw W hW t] at h
+      split at h
+      · cases h
+      · rename_i k ks ek
+        split at h
+        · cases h
+        · injection h with h; subst h
+          intro p hp
+          have hk0 : t.kids[0]? = some k := by rw [ek]; rfl
+          simp only [List.mem_cons] at hp
+          rcases hp with rfl | hp
+          · exact Recorded.here (by simp) rfl
+          · exact Recorded.below 0 hk0 (render_recorded ctx c _ (clip_inside hW _ _) k _ (by assumption) p hp)
+  | .tag c, W, hW, t, ps, h => by
+    simp only [V.render] at h
+    rw [applyTo_clip root hh hw W hW t] at h
+    split at h
+    · cases h
+    · rename_i k ks ek
+      intro p hp
+      have hk0 : t.kids[0]? = some k := by rw [ek]; rfl
+      exact Recorded.below 0 hk0 (render_recorded ctx c _ (clip_inside hW _ _) k ps h p hp)
+  | .dyn _ a b, W, hW, t, ps, h => by
+    simp only [V.render] at h
+    rw [applyTo_clip root hh hw W hW t] at h
+    split at h
+    · split at h
+      · cases h
+      · rename_i k ks ek
+        intro p hp
+        have hk0 : t.kids[0]? = some k := by rw [ek]; rfl
+        exact Recorded.below 0 hk0 (render_recorded ctx a _ (clip_inside hW _ _) k ps h p hp)
+    · split at h
+      · split at h
+        · cases h
+        · rename_i k ks ek
+          intro p hp
+          have hk0 : t.kids[0]? = some k := by rw [ek]; rfl
+          exact Recorded.below 0 hk0 (render_recorded ctx b _ (clip_inside hW _ _) k ps h p hp)
+      · cases h
+theorem renderKids_recorded (ctx : Ctx) (dir : Axis) : ∀ (cs : List Child) (W : Option Rect), (∀ w, W = some w → w.Inside root) →
+    ∀ (ts : List LT) (ps : List Paint), renderKids ctx dir (winShape root W) cs ts = .ok ps →
+      ∀ p ∈ ps, (∃ (j : Nat) (k : LT), ts[j]? = some k ∧ Recorded root k W p) ∨ (p.kind = .erase ∧ Sub p.shape (winShape root W))
+  | [], W, hW, ts, ps, h => by
+    simp only [renderKids] at h; injection h with h; subst h
+    intro p hp; simp at hp
+  | _ :: _, W, hW, [], ps, h => by
+    simp only [renderKids] at h; injection h with h; subst h
+    intro p hp; simp at hp
+  | .mk _ _ face v :: cs, W, hW, t :: ts, ps, h => by
+    simp only [renderKids] at h
+    have tail : ∀ ps2, renderKids ctx dir (winShape root W) cs ts = .ok ps2 → ∀ p ∈ ps2,
+        (∃ (j : Nat) (k : LT), (t :: ts)[j]? = some k ∧ Recorded root k W p) ∨ (p.kind = .erase ∧ Sub p.shape (winShape root W)) := by
+      intro ps2 e2 p hp
+      rcases renderKids_recorded ctx dir cs W hW ts ps2 e2 p hp with ⟨j, k, hj, hr⟩ | hs
+      · exact Or.inl ⟨j + 1, k, by simpa using hj, hr⟩
+      · exact Or.inr hs
+    split at h
+    · exact tail ps h
+    · split at h
+      · cases h
+      · split at h
+        · cases h
+        · injection h with h; subst h
+          intro p hp
+          simp only [List.mem_append] at hp
+          rcases hp with (hp | hp) | hp
+          · split at hp
+            · simp at hp; subst hp
+              exact Or.inr ⟨rfl, majorStrip_sub dir _ t⟩
+            · simp at hp
+          · exact Or.inl ⟨0, t, rfl, render_recorded ctx v W hW t _ (by assumption) p hp⟩
+          · exact tail _ (by assumption) p hp
+end
+end
+
+
+/-- the rectangle `[pos, pos + size)` of a layout node, in the coordinates of its parent, contains `q` -/
+def Covers (k : LT) (q : Pos) : Prop :=
+  k.pos.col ≤ q.col ∧ q.col < k.pos.col + k.size.w ∧ k.pos.row ≤ q.row ∧ q.row < k.pos.row + k.size.h
+
+/-- positions of cells of a surface: below `usize::MAX` -/
+def PosOk (q : Pos) : Prop := q.row + 1 < U ∧ q.col + 1 < U
+
+theorem contains_iff (k : LT) (q : Pos) (hq : PosOk q) : k.contains q = true ↔ Covers k q := by
+  unfold LT.contains Covers satAdd
+  simp only [decide_eq_true_eq]
+  obtain ⟨h1, h2⟩ := hq
+  constructor
+  · intro ⟨a, b, c, d⟩
+    refine ⟨a, ?_, c, ?_⟩
+    · split at b <;> omega
+    · split at d <;> omega
+  · intro ⟨a, b, c, d⟩
+    refine ⟨a, ?_, c, ?_⟩
+    · split <;> omega
+    · split <;> omega
+
+/-- what hit testing has to return: the node, then — if some child covers the position — the chain of
+the first such child for the position relative to it -/
+inductive HitChain : LT → Pos → List (Pos × Size) → Prop
+  | stop (t : LT) (q : Pos) : (∀ k ∈ t.kids, ¬ Covers k q) → HitChain t q [(t.pos, t.size)]
+  | step (t : LT) (q : Pos) (pre : List LT) (k : LT) (post : List LT) (rest : List (Pos × Size)) :
+      t.kids = pre ++ k :: post → (∀ k' ∈ pre, ¬ Covers k' q) → Covers k q →
+      HitChain k ⟨q.row - k.pos.row, q.col - k.pos.col⟩ rest → HitChain t q ((t.pos, t.size) :: rest)
+
+mutual
+theorem findPath_chain : ∀ (t : LT) (q : Pos), PosOk q → HitChain t q (t.findPath q)
+  | .node p s d kids, q, hq => by
+    rcases findIn_chain kids q hq with ⟨e, hn⟩ | ⟨pre, k, post, ek, hpre, hk, e, hc⟩
+    · simp only [LT.findPath, e]
+      exact HitChain.stop (.node p s d kids) q hn
+    · simp only [LT.findPath, e]
+      exact HitChain.step (.node p s d kids) q pre k post _ ek hpre hk hc
+theorem findIn_chain : ∀ (ks : List LT) (q : Pos), PosOk q →
+    (findIn ks q = [] ∧ ∀ k ∈ ks, ¬ Covers k q) ∨
+    (∃ pre k post, ks = pre ++ k :: post ∧ (∀ k' ∈ pre, ¬ Covers k' q) ∧ Covers k q ∧
+      findIn ks q = k.findPath ⟨q.row - k.pos.row, q.col - k.pos.col⟩ ∧
+      HitChain k ⟨q.row - k.pos.row, q.col - k.pos.col⟩ (k.findPath ⟨q.row - k.pos.row, q.col - k.pos.col⟩))
+  | [], q, _ => Or.inl ⟨by simp only [findIn], by simp⟩
+  | k :: ks, q, hq => by
+    by_cases hc : k.contains q = true
+    · have hcov := (contains_iff k q hq).1 hc
+      have hq' : PosOk ⟨q.row - k.pos.row, q.col - k.pos.col⟩ := by
+        obtain ⟨a, b⟩ := hq
+        constructor <;> (simp only; omega)
+      exact Or.inr ⟨[], k, ks, rfl, by simp, hcov, by simp only [findIn, hc, if_true], findPath_chain k _ hq'⟩
+    · have hncov : ¬ Covers k q := fun h => hc ((contains_iff k q hq).2 h)
+      rcases findIn_chain ks q hq with ⟨e, hn⟩ | ⟨pre, k', post, ek, hpre, hk, e, hch⟩
+      · refine Or.inl ⟨by simp only [findIn, hc, e]; rfl, ?_⟩
+        intro k0 hk0
+        simp only [List.mem_cons] at hk0
+        rcases hk0 with rfl | hk0
+        · exact hncov
+        · exact hn k0 hk0
+      · refine Or.inr ⟨k :: pre, k', post, by simp [ek], ?_, hk, by simp only [findIn, hc, e]; rfl, hch⟩
+        intro k0 hk0
+        simp only [List.mem_cons] at hk0
+        rcases hk0 with rfl | hk0
+        · exact hncov
+        · exact hpre k0 hk0
+end
+
+/-- on an empty window everything below is invisible -/
+theorem walk_none : ∀ (π : List Nat) (t n : LT) (W' : Option Rect), walk t none π = some (n, W') → W' = none
+  | [], t, n, W', h => by
+    simp only [walk, clip] at h
+    injection h with h; injection h with _ h2; exact h2.symm
+  | i :: π, t, n, W', h => by
+    simp only [walk, clip] at h
+    split at h
+    · cases h
+    · exact walk_none π _ n W' h
+
+/-- the visible rectangle of a descendant lies inside the visible rectangle of the node -/
+theorem walk_within : ∀ (π : List Nat) (t n : LT) (W : Option Rect) (w' : Rect), walk t W π = some (n, some w') →
+    ∃ wt, clip W t.pos t.size = some wt ∧ wt.r0 ≤ w'.r0 ∧ w'.r1 ≤ wt.r1 ∧ wt.c0 ≤ w'.c0 ∧ w'.c1 ≤ wt.c1
+  | [], t, n, W, w', h => by
+    simp only [walk] at h
+    injection h with h; injection h with _ h2
+    exact ⟨w', h2, Nat.le_refl _, Nat.le_refl _, Nat.le_refl _, Nat.le_refl _⟩
+  | i :: π, t, n, W, w', h => by
+    simp only [walk] at h
+    split at h
+    · cases h
+    · rename_i k ek
+      cases hc : clip W t.pos t.size with
+      | none => rw [hc] at h; have := walk_none π k n _ h; cases this
+      | some wt =>
+        rw [hc] at h
+        obtain ⟨wk, ewk, a, b, c, d⟩ := walk_within π k n (some wt) w' h
+        refine ⟨wt, rfl, ?_⟩
+        simp only [clip] at ewk
+        split at ewk
+        · injection ewk with ewk; subst ewk
+          simp only at a b c d
+          omega
+        · cases ewk
+
+/-- every node on the path covers the position (relative to its parent) -/
+def Along : LT → Pos → List Nat → Prop
+  | _, _, [] => True
+  | t, q, i :: π => ∃ k, t.kids[i]? = some k ∧ Covers k q ∧ Along k ⟨q.row - k.pos.row, q.col - k.pos.col⟩ π
+
+/-- If the cell `(R, C)` of the root surface lies in the visible rectangle of the node reached by the path
+`π` from `t` (`t` itself drawn inside the window `w`), then — in the coordinates hit testing uses for `t`,
+relative to `t`'s own origin — every node on that path covers the position. -/
+theorem walk_along : ∀ (π : List Nat) (t n : LT) (w w' : Rect) (R C : Nat),
+    walk t (some w) π = some (n, some w') → w'.r0 ≤ R → R < w'.r1 → w'.c0 ≤ C → C < w'.c1 →
+    Along t ⟨R - (w.r0 + t.pos.row), C - (w.c0 + t.pos.col)⟩ π
+  | [], _, _, _, _, _, _, _, _, _, _, _ => trivial
+  | i :: π, t, n, w, w', R, C, h, h1, h2, h3, h4 => by
+    simp only [walk] at h
+    split at h
+    · cases h
+    · rename_i k ek
+      cases hc : clip (some w) t.pos t.size with
+      | none => rw [hc] at h; have := walk_none π k n _ h; cases this
+      | some wt =>
+        rw [hc] at h
+        obtain ⟨wk, ewk, a, b, c, d⟩ := walk_within π k n (some wt) w' h
+        have ih := walk_along π k n wt w' R C h h1 h2 h3 h4
+        have hwt : wt.r0 = w.r0 + t.pos.row ∧ wt.c0 = w.c0 + t.pos.col := by
+          simp only [clip] at hc
+          split at hc
+          · injection hc with hc; subst hc; exact ⟨rfl, rfl⟩
+          · cases hc
+        have hwk : wk.r0 = wt.r0 + k.pos.row ∧ wk.c0 = wt.c0 + k.pos.col ∧ wk.r1 ≤ wt.r0 + k.pos.row + k.size.h ∧ wk.c1 ≤ wt.c0 + k.pos.col + k.size.w := by
+          simp only [clip] at ewk
+          split at ewk
+          · injection ewk with ewk; subst ewk
+            exact ⟨rfl, rfl, Nat.min_le_left _ _, Nat.min_le_left _ _⟩
+          · cases ewk
+        refine ⟨k, ek, ?_, ?_⟩
+        · simp only [Covers]
+          omega
+        · have e1 : R - (w.r0 + t.pos.row) - k.pos.row = R - (wt.r0 + k.pos.row) := by omega
+          have e2 : C - (w.c0 + t.pos.col) - k.pos.col = C - (wt.c0 + k.pos.col) := by omega
+          simp only [e1, e2]
+          exact ih
+
+
+/-! ## siblings laid out by the library do not overlap; hit testing finds the drawn view -/
+
+
+
+/-- no surface position is covered by two of the siblings -/
+def Disj (kids : List LT) : Prop :=
+  ∀ (i j : Nat) (ki kj : LT), i < j → kids[i]? = some ki → kids[j]? = some kj →
+    ∀ q, PosOk q → ¬ (Covers ki q ∧ Covers kj q)
+
+mutual
+/-- everywhere in the tree, siblings do not overlap -/
+def Tidy : LT → Prop
+  | .node _ _ _ kids => Disj kids ∧ TidyL kids
+def TidyL : List LT → Prop
+  | [] => True
+  | k :: ks => Tidy k ∧ TidyL ks
+end
+
+theorem Disj_nil : Disj [] := by intro i j ki kj _ h; simp at h
+theorem Disj_single (k : LT) : Disj [k] := by
+  intro i j ki kj hij hi hj
+  cases j with
+  | zero => omega
+  | succ j => simp at hj
+
+theorem Tidy_setPos (t : LT) (p : Pos) (h : Tidy t) : Tidy (t.setPos p) := by
+  cases t; simpa [LT.setPos, Tidy] using h
+theorem Tidy_default : Tidy LT.default := by simp [LT.default, Tidy, TidyL, Disj_nil]
+theorem Tidy_leaf (s : Size) : Tidy (LT.leaf s) := by simp [LT.leaf, Tidy, TidyL, Disj_nil]
+theorem Tidy_single (p : Pos) (s : Size) (d : Nat) (k : LT) (h : Tidy k) : Tidy (.node p s d [k]) := by
+  simp [Tidy, TidyL, Disj_single, h]
+
+/-- `min x usize::MAX` -/
+def capU (x : Nat) : Nat := if x < U then x else U - 1
+theorem satAdd_eq (a b : Nat) : satAdd a b = capU (a + b) := rfl
+theorem capU_mono {a b : Nat} (h : a ≤ b) : capU a ≤ capU b := by unfold capU; split <;> split <;> omega
+theorem capU_le (a : Nat) : capU a ≤ a := by unfold capU U; split <;> omega
+theorem capU_capU (a : Nat) : capU (capU a) = capU a := by
+  unfold capU U
+  by_cases h : a < 2 ^ 64
+  · simp [h]
+  · simp [h]
+theorem capU_idem_le (a b : Nat) : capU a ≤ capU (capU a + b) := by unfold capU; split <;> split <;> omega
+
+/-- the children `place` positions start at or after `capU off` along the major axis -/
+theorem place_lower (dir : Axis) (minor between : Nat) :
+    ∀ (cs : List Child) (ts : List LT) (off : Nat) (ts' : List LT) (o : Nat),
+      place dir minor between cs ts off = .ok (ts', o) → ∀ k ∈ ts', capU off ≤ dir.majorP k.pos
+  | [], ts, off, ts', o, h => by
+    simp only [place] at h; injection h with h; injection h with h1 _; subst h1
+    intro k hk; simp at hk
+  | _ :: _, [], off, ts', o, h => by simp only [place] at h; cases h
+  | .mk f al fc v :: cs, t :: ts, off, ts', o, h => by
+    simp only [place] at h
+    split at h
+    · cases h
+    · rename_i ts'' o' e
+      injection h with h; injection h with h1 _; subst h1
+      intro k hk
+      simp only [List.mem_cons] at hk
+      rcases hk with rfl | hk
+      · have : dir.majorP (t.setPos (dir.posFrom off (al.align (dir.minorS t.size) minor))).pos = off := by
+          cases dir <;> simp [Axis.majorP, Axis.posFrom]
+        rw [this]; exact capU_le off
+      · have := place_lower dir minor between cs ts _ ts'' o' e k hk
+        rw [satAdd_eq, satAdd_eq, capU_capU] at this
+        have h1 : capU off ≤ capU (capU (off + dir.majorS t.size) + between) :=
+          Nat.le_trans (capU_mono (Nat.le_add_right _ _)) (capU_idem_le _ _)
+        omega
+
+theorem covers_major (dir : Axis) (k : LT) (q : Pos) (h : Covers k q) :
+    dir.majorP k.pos ≤ dir.majorP q ∧ dir.majorP q < dir.majorP k.pos + dir.majorS k.size := by
+  cases dir <;> simp only [Axis.majorP, Axis.majorS, Covers] at * <;> omega
+
+theorem place_disj (dir : Axis) (minor between : Nat) :
+    ∀ (cs : List Child) (ts : List LT) (off : Nat) (ts' : List LT) (o : Nat),
+      place dir minor between cs ts off = .ok (ts', o) → Disj ts'
+  | [], ts, off, ts', o, h => by
+    simp only [place] at h; injection h with h; injection h with h1 _; subst h1; exact Disj_nil
+  | _ :: _, [], off, ts', o, h => by simp only [place] at h; cases h
+  | .mk f al fc v :: cs, t :: ts, off, ts', o, h => by
+    simp only [place] at h
+    split at h
+    · cases h
+    · rename_i ts'' o' e
+      injection h with h; injection h with h1 _; subst h1
+      have ih := place_disj dir minor between cs ts _ ts'' o' e
+      have lower := place_lower dir minor between cs ts _ ts'' o' e
+      intro i j ki kj hij hi hj q hq ⟨hci, hcj⟩
+      cases j with
+      | zero => omega
+      | succ j =>
+        simp only [List.getElem?_cons_succ] at hj
+        cases i with
+        | zero =>
+          simp only [List.getElem?_cons_zero, Option.some.injEq] at hi
+          subst hi
+          have hkj : kj ∈ ts'' := List.mem_of_getElem? hj
+          have hl := lower kj hkj
+          rw [satAdd_eq, satAdd_eq, capU_capU] at hl
+          have hpos : dir.majorP (t.setPos (dir.posFrom off (al.align (dir.minorS t.size) minor))).pos = off := by
+            cases dir <;> simp [Axis.majorP, Axis.posFrom]
+          have a := covers_major dir _ q hci
+          have b := covers_major dir _ q hcj
+          rw [hpos, setPos_size] at a
+          have h1 : capU (off + dir.majorS t.size) ≤ capU (capU (off + dir.majorS t.size) + between) := capU_idem_le _ _
+          have hqm : dir.majorP q + 1 < U := by
+            cases dir
+            · exact hq.2
+            · exact hq.1
+          have : capU (off + dir.majorS t.size) ≤ dir.majorP q := by omega
+          unfold capU at this
+          split at this <;> omega
+        | succ i =>
+          simp only [List.getElem?_cons_succ] at hi
+          exact ih i j ki kj (by omega) hi hj q hq ⟨hci, hcj⟩
+
+
+theorem place_tidyL (dir : Axis) (minor between : Nat) :
+    ∀ (cs : List Child) (ts : List LT) (off : Nat) (ts' : List LT) (o : Nat),
+      place dir minor between cs ts off = .ok (ts', o) → TidyL ts → TidyL ts'
+  | [], ts, off, ts', o, h, _ => by
+    simp only [place] at h; injection h with h; injection h with h1 _; subst h1; simp [TidyL]
+  | _ :: _, [], off, ts', o, h, _ => by simp only [place] at h; cases h
+  | .mk f al fc v :: cs, t :: ts, off, ts', o, h, ht => by
+    simp only [place] at h
+    split at h
+    · cases h
+    · rename_i ts'' o' e
+      injection h with h; injection h with h1 _; subst h1
+      simp only [TidyL] at ht ⊢
+      exact ⟨Tidy_setPos t _ ht.1, place_tidyL dir minor between cs ts _ ts'' o' e ht.2⟩
+
+mutual
+theorem layout_tidy (ctx : Ctx) : ∀ (v : V) (ct : Ct) (t : LT), v.layout ctx ct = .ok t → Tidy t
+  | .text _ _, ct, t, h => by
+    rw [V.layout] at h
+    split at h; · cases h
+    split at h; · cases h
+    injection h with h; subst h; exact Tidy_leaf _
+  | .str _, ct, t, h => by
+    rw [V.layout] at h
+    split at h; · cases h
+    split at h; · cases h
+    injection h with h; subst h; exact Tidy_leaf _
+  | .glyph _ _ _, ct, t, h => by
+    rw [V.layout] at h
+    split at h
+    · split at h; · cases h
+      injection h with h; subst h; exact Tidy_leaf _
+    · split at h; · cases h
+      split at h; · cases h
+      injection h with h; subst h; exact Tidy_leaf _
+  | .fixed _ _ _, ct, t, h => by
+    rw [V.layout] at h
+    split at h; · cases h
+    injection h with h; subst h; exact Tidy_leaf _
+  | .image _ _, ct, t, h => by
+    rw [V.layout] at h
+    split at h; · cases h
+    injection h with h; subst h; exact Tidy_leaf _
+  | .fill _, ct, t, h => by
+    rw [V.layout] at h; injection h with h; subst h; exact Tidy_leaf _
+  | .scrollbar _, ct, t, h => by
+    rw [V.layout] at h; injection h with h; subst h; simp [Tidy, TidyL, Disj_nil]
+  | .optNone, ct, t, h => by
+    rw [V.layout] at h; injection h with h; subst h; exact Tidy_default
+  | .flex dir j cs, ct, t, h => by
+    rw [V.layout] at h
+    simp only at h
+    split at h; · cases h
+    split at h; · cases h
+    split at h; · cases h
+    split at h; · cases h
+    split at h; · cases h
+    rename_i _ ts1 a1 e1 _ ts2 a2 e2 _ side between e3 _ ts3 off e4 _ s es
+    injection h with h; subst h
+    have t1 : TidyL ts1 := phase1_tidy ctx dir _ cs _ ts1 a1 e1
+    have t2 : TidyL ts2 := by
+      split at e2
+      · exact phase2_tidy ctx dir _ cs ts1 _ ts2 a2 e2 t1
+      · injection e2 with e2; injection e2 with e2 _; subst e2; exact t1
+    simp only [Tidy]
+    exact ⟨place_disj dir _ _ cs ts2 _ ts3 off e4, place_tidyL dir _ _ cs ts2 _ ts3 off e4 t2⟩
+  | .container _ _ _ _ _ c, ct, t, h => by
+    rw [V.layout] at h
+    simp only at h
+    split at h; · cases h
+    split at h; · cases h
+    split at h; · cases h
+    split at h; · cases h
+    split at h; · cases h
+    rename_i _ ch eh _ cw ew _ tc etc _ h2 eh2 _ w2 ew2
+    injection h with h; subst h
+    exact Tidy_single _ _ _ _ (Tidy_setPos tc _ (layout_tidy ctx c _ tc etc))
+  | .frame c, ct, t, h => by
+    rw [V.layout] at h
+    split at h
+    · exact layout_tidy ctx c ct t h
+    · split at h; · cases h
+      split at h; · cases h
+      split at h; · cases h
+      rename_i _ tc etc _ hh eh _ ww ew
+      injection h with h; subst h
+      exact Tidy_single _ _ _ _ (Tidy_setPos tc _ (layout_tidy ctx c _ tc etc))
+  | .tag c, ct, t, h => by
+    rw [V.layout] at h
+    split at h; · cases h
+    rename_i _ tc etc
+    injection h with h; subst h
+    exact Tidy_single _ _ _ _ (layout_tidy ctx c _ tc etc)
+  | .dyn _ a b, ct, t, h => by
+    rw [V.layout] at h
+    split at h
+    · split at h; · cases h
+      rename_i _ tc etc
+      injection h with h; subst h
+      exact Tidy_single _ _ _ _ (layout_tidy ctx a _ tc etc)
+    · split at h; · cases h
+      rename_i _ tc etc
+      injection h with h; subst h
+      exact Tidy_single _ _ _ _ (layout_tidy ctx b _ tc etc)
+theorem phase1_tidy (ctx : Ctx) (dir : Axis) (ctl : Ct) : ∀ (cs : List Child) (a : P1) (ts : List LT) (a' : P1),
+    phase1 ctx dir ctl cs a = .ok (ts, a') → TidyL ts
+  | [], a, ts, a', h => by
+    simp only [phase1] at h; injection h with h; injection h with h1 _; subst h1; simp [TidyL]
+  | .mk none _ _ v :: cs, a, ts, a', h => by
+    simp only [phase1] at h
+    split at h; · cases h
+    split at h; · cases h
+    rename_i _ t et _ ts0 a0 e0
+    injection h with h; injection h with h1 _; subst h1
+    simp only [TidyL]
+    exact ⟨layout_tidy ctx v ctl t et, phase1_tidy ctx dir ctl cs _ ts0 a0 e0⟩
+  | .mk (some f) _ _ v :: cs, a, ts, a', h => by
+    simp only [phase1] at h
+    split at h; · cases h
+    rename_i _ ts0 a0 e0
+    injection h with h; injection h with h1 _; subst h1
+    simp only [TidyL]
+    exact ⟨Tidy_default, phase1_tidy ctx dir ctl cs _ ts0 a0 e0⟩
+theorem phase2_tidy (ctx : Ctx) (dir : Axis) (ctl : Ct) : ∀ (cs : List Child) (ts : List LT) (a : P2) (ts' : List LT) (a' : P2),
+    phase2 ctx dir ctl cs ts a = .ok (ts', a') → TidyL ts → TidyL ts'
+  | [], ts, a, ts', a', h, _ => by
+    simp only [phase2] at h; injection h with h; injection h with h1 _; subst h1; simp [TidyL]
+  | _ :: _, [], a, ts', a', h, _ => by simp only [phase2] at h; cases h
+  | .mk none _ _ v :: cs, t :: ts, a, ts', a', h, ht => by
+    simp only [phase2] at h
+    split at h; · cases h
+    rename_i _ ts0 a0 e0
+    injection h with h; injection h with h1 _; subst h1
+    simp only [TidyL] at ht ⊢
+    exact ⟨ht.1, phase2_tidy ctx dir ctl cs ts a ts0 a0 e0 ht.2⟩
+  | .mk (some f) _ _ v :: cs, t :: ts, a, ts', a', h, ht => by
+    simp only [phase2] at h
+    simp only [TidyL] at ht
+    split at h
+    · split at h; · cases h
+      split at h; · cases h
+      rename_i _ t' et _ ts0 a0 e0
+      injection h with h; injection h with h1 _; subst h1
+      simp only [TidyL]
+      exact ⟨layout_tidy ctx v _ t' et, phase2_tidy ctx dir ctl cs ts _ ts0 a0 e0 ht.2⟩
+    · split at h; · cases h
+      rename_i _ ts0 a0 e0
+      injection h with h; injection h with h1 _; subst h1
+      simp only [TidyL]
+      exact ⟨ht.1, phase2_tidy ctx dir ctl cs ts _ ts0 a0 e0 ht.2⟩
+end
+
+/-- the layouts along a path of child indices, as `find_path` reports them -/
+def pathNodes : LT → List Nat → List (Pos × Size)
+  | t, [] => [(t.pos, t.size)]
+  | t, i :: π => (t.pos, t.size) :: (match t.kids[i]? with
+    | none => []
+    | some k => pathNodes k π)
+
+def nodeAt : LT → List Nat → Option LT
+  | t, [] => some t
+  | t, i :: π => match t.kids[i]? with
+    | none => none
+    | some k => nodeAt k π
+
+theorem walk_nodeAt : ∀ (π : List Nat) (t n : LT) (W W' : Option Rect), walk t W π = some (n, W') → nodeAt t π = some n
+  | [], t, n, W, W', h => by
+    simp only [walk] at h; injection h with h; injection h with h1 _; simp [nodeAt, h1]
+  | i :: π, t, n, W, W', h => by
+    simp only [walk] at h
+    simp only [nodeAt]
+    split at h
+    · cases h
+    · rename_i k ek
+      try simp only [ek]
+      exact walk_nodeAt π k n _ W' h
+
+theorem TidyL_mem : ∀ (ks : List LT) (k : LT), TidyL ks → k ∈ ks → Tidy k
+  | [], k, _, hk => by simp at hk
+  | k0 :: ks, k, h, hk => by
+    simp only [TidyL] at h
+    simp only [List.mem_cons] at hk
+    rcases hk with rfl | hk
+    · exact h.1
+    · exact TidyL_mem ks k h.2 hk
+
+theorem findIn_first : ∀ (ks : List LT) (q : Pos), PosOk q → ∀ (i : Nat) (k : LT), ks[i]? = some k → Covers k q →
+    (∀ (j : Nat) (kj : LT), j < i → ks[j]? = some kj → ¬ Covers kj q) →
+    findIn ks q = k.findPath ⟨q.row - k.pos.row, q.col - k.pos.col⟩
+  | [], q, _, i, k, hk, _, _ => by simp at hk
+  | k0 :: ks, q, hq, i, k, hk, hc, hpre => by
+    cases i with
+    | zero =>
+      simp only [List.getElem?_cons_zero, Option.some.injEq] at hk
+      subst hk
+      simp only [findIn, (contains_iff _ q hq).2 hc, if_true]
+    | succ i =>
+      simp only [List.getElem?_cons_succ] at hk
+      have h0 : ¬ Covers k0 q := hpre 0 k0 (by omega) rfl
+      have hc0 : ¬ k0.contains q = true := fun h => h0 ((contains_iff k0 q hq).1 h)
+      simp only [findIn, hc0, if_false]
+      exact findIn_first ks q hq i k hk hc (fun j kj hj hkj => hpre (j + 1) kj (by omega) (by simpa using hkj))
+
+/-- In a tree whose siblings do not overlap, hit testing a position that every node along `π` covers
+returns exactly the layouts along `π` (when the node reached has no children). -/
+theorem tidy_hit : ∀ (π : List Nat) (t n : LT) (q : Pos), Tidy t → PosOk q → Along t q π → nodeAt t π = some n →
+    n.kids = [] → t.findPath q = pathNodes t π
+  | [], t, n, q, _, _, _, hn, hk => by
+    simp only [nodeAt, Option.some.injEq] at hn
+    subst hn
+    cases t with
+    | node p s d kids =>
+      simp only [node_kids] at hk
+      subst hk
+      simp [LT.findPath, findIn, pathNodes]
+  | i :: π, t, n, q, ht, hq, ha, hn, hk => by
+    obtain ⟨k, ek, hc, ha'⟩ := ha
+    simp only [nodeAt, ek] at hn
+    cases t with
+    | node p s d kids =>
+      simp only [node_kids] at ek
+      simp only [Tidy] at ht
+      have hkm : k ∈ kids := List.mem_of_getElem? ek
+      have htk : Tidy k := TidyL_mem kids k ht.2 hkm
+      have hq' : PosOk ⟨q.row - k.pos.row, q.col - k.pos.col⟩ := by
+        obtain ⟨a, b⟩ := hq
+        constructor <;> (simp only; omega)
+      have hfirst := findIn_first kids q hq i k ek hc (fun j kj hj hkj hcj => ht.1 j i kj k hj hkj ek q hq ⟨hcj, hc⟩)
+      have ih := tidy_hit π k n _ htk hq' ha' hn hk
+      simp only [LT.findPath, hfirst, ih, pathNodes, node_kids, ek, node_pos, node_size]
+
+
+/-- as `tidy_hit`, for any node reached: the chain starts with the layouts along `π` -/
+theorem tidy_hit_prefix : ∀ (π : List Nat) (t : LT) (q : Pos), Tidy t → PosOk q → Along t q π →
+    ∃ rest, t.findPath q = pathNodes t π ++ rest
+  | [], t, q, _, _, _ => by
+    cases t with
+    | node p s d kids => exact ⟨findIn kids q, by simp [LT.findPath, pathNodes]⟩
+  | i :: π, t, q, ht, hq, ha => by
+    obtain ⟨k, ek, hc, ha'⟩ := ha
+    cases t with
+    | node p s d kids =>
+      simp only [node_kids] at ek
+      simp only [Tidy] at ht
+      have hkm : k ∈ kids := List.mem_of_getElem? ek
+      have htk : Tidy k := TidyL_mem kids k ht.2 hkm
+      have hq' : PosOk ⟨q.row - k.pos.row, q.col - k.pos.col⟩ := by
+        obtain ⟨a, b⟩ := hq
+        constructor <;> (simp only; omega)
+      have hfirst := findIn_first kids q hq i k ek hc (fun j kj hj hkj hcj => ht.1 j i kj k hj hkj ek q hq ⟨hcj, hc⟩)
+      obtain ⟨rest, ih⟩ := tidy_hit_prefix π k _ htk hq' ha'
+      exact ⟨rest, by simp only [LT.findPath, hfirst, ih, pathNodes, node_kids, ek, node_pos, node_size, List.cons_append]⟩
+
+
+theorem walk_inside {root : Shape} : ∀ (π : List Nat) (t n : LT) (W : Option Rect) (w' : Rect),
+    (∀ w, W = some w → w.Inside root) → walk t W π = some (n, some w') → w'.Inside root
+  | [], t, n, W, w', hW, h => by
+    simp only [walk] at h; injection h with h; injection h with _ h2
+    exact clip_inside hW t.pos t.size w' h2
+  | i :: π, t, n, W, w', hW, h => by
+    simp only [walk] at h
+    split at h
+    · cases h
+    · exact walk_inside π _ n _ w' (clip_inside hW t.pos t.size) h
 
 end SurfProofs.ViewLayoutL
